@@ -1,6 +1,7 @@
 package proto
 
 import (
+	"time"
 	"encoding/json"
 	"fmt"
 	"os"
@@ -118,6 +119,8 @@ func (f *Family) Run(tier string, idx int, r *core.ScnResult) {
 	}
 	if it.Scn.Bound > 0 {
 		bound = it.Scn.Bound
+	} else if it.Scn.Bound < 0 {
+		bound = 0 // the item asks for the default schedule only
 	}
 	r.Nontrivial = f.Nontrivial == nil || f.Nontrivial(it)
 	var last *Result
@@ -202,7 +205,11 @@ func (f *Family) Run(tier string, idx int, r *core.ScnResult) {
 		}
 		return true
 	}
+	t0 := time.Now()
 	e.Explore()
+	if d := time.Since(t0); os.Getenv("VERIF_SLOW") != "" && d > 500*time.Millisecond {
+		fmt.Fprintf(os.Stderr, "SLOW item %d %s: %s for %d executions\n", idx, it.Class, d, e.Stats.Executions)
+	}
 	r.Stats = e.Stats
 	// determinism: replay the default execution of a rotating subset and compare everything observable
 	if idx%37 == 0 {
